@@ -81,13 +81,15 @@ func (l *listener) Listen() error {
 		return mangos.ErrAddrInUse
 	}
 	l.active = true
-	l.Unlock()
+	// The lock is held across the transport's Listen, so that a concurrent
+	// Close cannot run between the closed check above and the bind: it
+	// either happens before (and we fail), or after (and closes what we bound).
 	if err := l.l.Listen(); err != nil {
-		l.Lock()
 		l.active = false
 		l.Unlock()
 		return err
 	}
+	l.Unlock()
 
 	go l.serve()
 	return nil
